@@ -207,6 +207,28 @@ def run(ctx):
         if fr is None or 'error' in fr:
             raise MachineryError('fresh worker failed: %s' % fr)
     # ---- 3. traces
+    # A difference only counts when the fresh-process answer itself is reproducible: queries whose result is
+    # not deterministic across fresh processes (property C16, known finding there) cannot be judged here.
+    suspects = []
+    fi = 0
+    for h, job in enumerate(jobs):
+        for si, st in enumerate(job['steps']):
+            got, fr = hist_out[h][si], fresh[fi]
+            if got['dump'] == fr['dump'] and [a[0] for a in got['answers']] != [a[0] for a in fr['answers']]:
+                suspects.append(fi)
+            fi += 1
+    unstable = {}
+    if suspects:
+        again = [cw.fresh_answers([dict(fresh_cases[i], perturb=17 * (rnd + 1) + i) for i in suspects]) for rnd in range(4)]
+        for k, i in enumerate(suspects):
+            base = [a[0] for a in fresh[i]['answers']]
+            bad = set()
+            for rnd in again:
+                for qi, a in enumerate(rnd[k]['answers']):
+                    if a[0] != base[qi]:
+                        bad.add(qi)
+            unstable[i] = bad
+    ctx.coverage['queries_excluded_nondeterministic_in_fresh_processes'] = sum(len(v) for v in unstable.values())
     traces = []
     tid_text = {}
     excluded = 0
@@ -215,8 +237,9 @@ def run(ctx):
         ev = []
         for si, st in enumerate(job['steps']):
             got, fr = hist_out[h][si], fresh[fi]
+            skip = unstable.get(fi, set())
             fi += 1
-            same = [a[0] for a in got['answers']] == [a[0] for a in fr['answers']]
+            same = all(a[0] == b[0] for qi, (a, b) in enumerate(zip(got['answers'], fr['answers'])) if qi not in skip)
             dump_ok = got['dump'] == fr['dump']
             if not dump_ok:
                 excluded += 1
@@ -224,7 +247,8 @@ def run(ctx):
             ev.append({'slot': 'p1' if st['slot'] else 'nopath', 'text': t, 'item': got['item'], 'fresh': bool(same),
                        'dump': bool(dump_ok), 'stale': max(got['stale_derived'], 0)})
             if dump_ok and not same:
-                bad = [(q, a[2], b[2]) for q, a, b in zip(st['queries'], got['answers'], fr['answers']) if a[0] != b[0]][:2]
+                bad = [(q, a[2], b[2]) for qi, (q, a, b) in enumerate(zip(st['queries'], got['answers'], fr['answers']))
+                       if a[0] != b[0] and qi not in skip][:2]
                 job.setdefault('diffs', []).append({'step': si, 'differences': bad})
         traces.append(ev)
     ctx.coverage['steps_excluded_parso_proviso_not_met'] = excluded
